@@ -10,7 +10,7 @@
    reports, and non-vacuity examples. *)
 From QV.lib Require Import Prelude.
 From QV.model Require Import C05_Model.
-From QV.proof Require Import C05_Proofs C05_Proofs_Written.
+From QV.proof Require Import C05_Proofs C05_Proofs_Written C05_Proofs_Meta C05_Proofs_Hist.
 
 (* T1 binding invariant.  In EVERY state reachable from a freshly built reconstruction by any
    history of set_optimizer(+scheduler) / remove_optimizer / set constraints / iteration /
@@ -219,3 +219,204 @@ Example C05_nonvacuous_as_written_aligned :
                 end) (models (rc (Witness.run Witness.mask_all 1 Witness.s0)))
   = [([0; 1], [0; 1]); ([], [2])].
 Proof. vm_compute. split; reflexivity. Qed.
+
+(* ================================================================== round 3 ================== *)
+(* T5 SIMULATION of whole histories.  For ANY history of operations — set_optimizer(+scheduler),
+   remove_optimizer, set constraints, iteration, .to(device), save, save+from_file, clone, clone
+   through the fallback, reloading one model, save WITHOUT the raw data + from_file(path, dset=d) —
+   from any bound state, the id-free view of the result is computed by a machine on views in which
+   EVERY interruption (.to / save / save+from_file / clone / clone fallback / model reload) is the
+   identity (vapply), configuration calls act on the named model only, an iteration is step_view
+   and the data-less checkpoint is vattach. *)
+Theorem C05_history_simulation :
+  forall (V G M L R C SS : Type) (Rzero : R)
+         (forward : list (list (option V) * C) -> L * list (list (option G)))
+         (opt_update : opt_kind -> R -> V -> G -> option (pstate M) -> V * option (pstate M))
+         (sched_init : SS -> R -> SS * R) (sched_step : SS -> nat -> L -> R -> SS * R)
+         (ops : list (op R C SS)) (s : st V M L R C SS),
+    binding_inv s ->
+    view_of (run_ops Rzero forward opt_update sched_init sched_step false ops s)
+    = vrun_ops Rzero forward opt_update sched_init sched_step ops (view_of s).
+Proof. exact C05_Proofs_Hist.view_run_ops. Qed.
+Print Assumptions C05_history_simulation.
+
+(* hence: erase every interruption from any history — wherever it stands, however many stand in a
+   row (save>load>save>load, clone of a clone, .to() between iterations) — and every field a later
+   iteration reads, and everything a user observes, is unchanged *)
+Theorem C05_interruptions_erasable :
+  forall (V G M L R C SS : Type) (Rzero : R)
+         (forward : list (list (option V) * C) -> L * list (list (option G)))
+         (opt_update : opt_kind -> R -> V -> G -> option (pstate M) -> V * option (pstate M))
+         (sched_init : SS -> R -> SS * R) (sched_step : SS -> nat -> L -> R -> SS * R)
+         (ops : list (op R C SS)) (s : st V M L R C SS),
+    binding_inv s ->
+    view_of (run_ops Rzero forward opt_update sched_init sched_step false ops s)
+    = view_of (run_ops Rzero forward opt_update sched_init sched_step false (erase ops) s) /\
+    obs (run_ops Rzero forward opt_update sched_init sched_step false ops s)
+    = obs (run_ops Rzero forward opt_update sched_init sched_step false (erase ops) s).
+Proof. exact C05_Proofs_Hist.interruptions_erasable. Qed.
+Print Assumptions C05_interruptions_erasable.
+
+(* [run k; ANY list of interruptions; run m] is the uninterrupted run of k+m iterations, and the
+   same with interruptions at two different points of the run *)
+Theorem C05_multi_interrupt_equiv :
+  forall (V G M L R C SS : Type) (Rzero : R)
+         (forward : list (list (option V) * C) -> L * list (list (option G)))
+         (opt_update : opt_kind -> R -> V -> G -> option (pstate M) -> V * option (pstate M))
+         (sched_init : SS -> R -> SS * R) (sched_step : SS -> nat -> L -> R -> SS * R)
+         (ints : list (op R C SS)) (k m : nat) (s : st V M L R C SS),
+    binding_inv s -> forallb (@is_interrupt R C SS) ints = true ->
+    obs (run Rzero forward opt_update sched_step m
+             (run_ops Rzero forward opt_update sched_init sched_step false ints
+                      (run Rzero forward opt_update sched_step k s)))
+    = obs (run Rzero forward opt_update sched_step (k + m) s).
+Proof. exact C05_Proofs_Hist.multi_interrupt_equiv. Qed.
+Print Assumptions C05_multi_interrupt_equiv.
+
+Theorem C05_two_point_interrupt_equiv :
+  forall (V G M L R C SS : Type) (Rzero : R)
+         (forward : list (list (option V) * C) -> L * list (list (option G)))
+         (opt_update : opt_kind -> R -> V -> G -> option (pstate M) -> V * option (pstate M))
+         (sched_init : SS -> R -> SS * R) (sched_step : SS -> nat -> L -> R -> SS * R)
+         (ints1 ints2 : list (op R C SS)) (k1 k2 m : nat) (s : st V M L R C SS),
+    binding_inv s -> forallb (@is_interrupt R C SS) ints1 = true -> forallb (@is_interrupt R C SS) ints2 = true ->
+    obs (run Rzero forward opt_update sched_step m
+          (run_ops Rzero forward opt_update sched_init sched_step false ints2
+            (run Rzero forward opt_update sched_step k2
+              (run_ops Rzero forward opt_update sched_init sched_step false ints1
+                (run Rzero forward opt_update sched_step k1 s)))))
+    = obs (run Rzero forward opt_update sched_step (k1 + k2 + m) s).
+Proof. exact C05_Proofs_Hist.two_point_interrupt_equiv. Qed.
+Print Assumptions C05_two_point_interrupt_equiv.
+
+(* T6 NO HYPOTHESIS LEFT for the routes of Ptychography itself.  For every state reachable from a
+   freshly built reconstruction by any history, every split k | m, with or without a device move:
+   save+from_file, the object that was saved, clone() and clone() through the fallback all continue
+   exactly like the uninterrupted run (the round-2 statements assumed `binding_inv s`, `rebinds g dev`
+   and k <= n; here the invariant is discharged by T1, Ptychography.save pickles each model in ONE
+   blob (Joint) so `rebinds` holds, and the run length is k + m) *)
+Theorem C05_resume_equiv_reachable :
+  forall (V G M L R C SS : Type) (Rzero : R)
+         (forward : list (list (option V) * C) -> L * list (list (option G)))
+         (opt_update : opt_kind -> R -> V -> G -> option (pstate M) -> V * option (pstate M))
+         (sched_init : SS -> R -> SS * R) (sched_step : SS -> nat -> L -> R -> SS * R)
+         (ops : list (op R C SS)) (spec : list (list V * C)) (dev : bool) (k m : nat),
+    let s := run_ops Rzero forward opt_update sched_init sched_step false ops (init_st spec : st V M L R C SS) in
+    obs (run Rzero forward opt_update sched_step m (reload false Joint dev (run Rzero forward opt_update sched_step k s)))
+    = obs (run Rzero forward opt_update sched_step (k + m) s) /\
+    obs (run Rzero forward opt_update sched_step m (snd (save false Joint (run Rzero forward opt_update sched_step k s))))
+    = obs (run Rzero forward opt_update sched_step (k + m) s) /\
+    obs (run Rzero forward opt_update sched_step m (clone false (run Rzero forward opt_update sched_step k s)))
+    = obs (run Rzero forward opt_update sched_step (k + m) s) /\
+    obs (run Rzero forward opt_update sched_step m (clone_fallback false (run Rzero forward opt_update sched_step k s)))
+    = obs (run Rzero forward opt_update sched_step (k + m) s).
+Proof. exact C05_Proofs_Hist.resume_equiv_reachable. Qed.
+Print Assumptions C05_resume_equiv_reachable.
+
+(* ... and what is REPORTED (iteration count, losses, lr history, constraints AND parameter values)
+   by the reloaded object (any granularity, with or without device), the clone, the fallback clone
+   and the object after .to() is what the original reports — no hypothesis *)
+Theorem C05_reported_state_reachable :
+  forall (V G M L R C SS : Type) (Rzero : R)
+         (forward : list (list (option V) * C) -> L * list (list (option G)))
+         (opt_update : opt_kind -> R -> V -> G -> option (pstate M) -> V * option (pstate M))
+         (sched_init : SS -> R -> SS * R) (sched_step : SS -> nat -> L -> R -> SS * R)
+         (ops : list (op R C SS)) (spec : list (list V * C)) (g : gran) (dev : bool),
+    let s := run_ops Rzero forward opt_update sched_init sched_step false ops (init_st spec : st V M L R C SS) in
+    obs (reload false g dev s) = obs s /\ obs (clone false s) = obs s /\ obs (clone_fallback false s) = obs s /\
+    obs (to_dev false s) = obs s.
+Proof. exact C05_Proofs_Hist.reported_state_reachable. Qed.
+Print Assumptions C05_reported_state_reachable.
+
+(* T7 the checkpoint WITHOUT the raw data: save(save_raw_data=False) + from_file(path, dset=d).
+   The dataset model (index i) is not in the file; `_dataset_metadata` carries the values of its
+   parameters; d brings fresh cells, no optimiser, no scheduler, its own constraints c.
+   (a) the binding invariant survives (it is one of the operations of T1);
+   (b) on the id-free view the route is exactly `vattach i c`: model i keeps its VALUES, takes the
+       constraints c and loses optimiser and scheduler; nothing else changes. *)
+Theorem C05_meta_route_view :
+  forall (V M L R C SS : Type) (i : nat) (c : C) (dev : bool) (s : st V M L R C SS),
+    binding_inv s ->
+    binding_inv (reload_meta false i c dev s) /\
+    view_of (reload_meta false i c dev s) = vattach i c (view_of s).
+Proof. exact C05_Proofs_Meta.reload_meta_inv_and_view. Qed.
+Print Assumptions C05_meta_route_view.
+
+(* (c) REPORTED STATE: iteration count, losses, lr history and the parameter values of EVERY model —
+   object, probe, and the learned scan positions / descan shifts — are those that were saved; the
+   constraints are those that were saved except the dataset's, which are the supplied dataset's *)
+Theorem C05_meta_route_reported :
+  forall (V M L R C SS : Type) (i : nat) (c : C) (dev : bool) (s : st V M L R C SS),
+    binding_inv s ->
+    o_iters (obs (reload_meta false i c dev s)) = o_iters (obs s) /\
+    o_losses (obs (reload_meta false i c dev s)) = o_losses (obs s) /\
+    o_lrs (obs (reload_meta false i c dev s)) = o_lrs (obs s) /\
+    o_vals (obs (reload_meta false i c dev s)) = o_vals (obs s) /\
+    o_cons (obs (reload_meta false i c dev s)) = upd_nth (o_cons (obs s)) i (fun _ => c).
+Proof. exact C05_Proofs_Hist.reload_meta_reported. Qed.
+Print Assumptions C05_meta_route_reported.
+
+(* (d) RESUME EQUIVALENCE through that route on its domain: at the interruption the dataset model
+   carries no optimiser and the supplied dataset has the constraints of the saved one *)
+Theorem C05_meta_route_resume_equiv :
+  forall (V G M L R C SS : Type) (Rzero : R)
+         (forward : list (list (option V) * C) -> L * list (list (option G)))
+         (opt_update : opt_kind -> R -> V -> G -> option (pstate M) -> V * option (pstate M))
+         (sched_step : SS -> nat -> L -> R -> SS * R)
+         (i : nat) (c : C) (dev : bool) (k m : nat) (s : st V M L R C SS) (md : mdl C),
+    binding_inv s -> nth_error (models (rc (run Rzero forward opt_update sched_step k s))) i = Some md ->
+    mopt md = None -> mcons md = c ->
+    obs (run Rzero forward opt_update sched_step m (reload_meta false i c dev (run Rzero forward opt_update sched_step k s)))
+    = obs (run Rzero forward opt_update sched_step (k + m) s).
+Proof. exact C05_Proofs_Hist.reload_meta_resume_equiv. Qed.
+Print Assumptions C05_meta_route_resume_equiv.
+
+(* (e) without `mopt md = None` the statement is FALSE: the dataset optimiser is not part of a
+   checkpoint without the data (this is why the property says "saving it together with its data") *)
+Theorem C05_meta_route_refuted_when_dataset_optimised : ~ meta_route_statement.
+Proof. exact C05_Proofs_Hist.meta_route_refuted. Qed.
+Print Assumptions C05_meta_route_refuted_when_dataset_optimised.
+
+(* ------------------------------------------------------------------ non-vacuity (round 3) *)
+(* a history with configuration calls, iterations and seven interruptions (two, three in a row):
+   erasing them leaves 2 configuration calls + 3 iterations and the same non-trivial observation *)
+Definition C05_hist_example : list (op Witness.R Witness.C Witness.SS) :=
+  [OpIter; OpReload true; OpClone; OpSetOpt 1 Adam 2%Z (Some 1%Z); OpTo; OpIter; OpSaveContinue; OpCloneFallback;
+   OpModelReload 0; OpSetCons 0 9%Z; OpIter; OpClone; OpClone].
+Example C05_nonvacuous_interruptions_erasable :
+  erase C05_hist_example = [OpIter; OpSetOpt 1 Adam 2%Z (Some 1%Z); OpIter; OpSetCons 0 9%Z; OpIter] /\
+  obs (Witness.run_ops Witness.mask_all false C05_hist_example Witness.s0)
+  = obs (Witness.run_ops Witness.mask_all false (erase C05_hist_example) Witness.s0) /\
+  o_iters (obs (Witness.run_ops Witness.mask_all false C05_hist_example Witness.s0)) = 3 /\
+  o_cons (obs (Witness.run_ops Witness.mask_all false C05_hist_example Witness.s0)) = [9%Z; 7%Z] /\
+  o_vals (obs (Witness.run_ops Witness.mask_all false C05_hist_example Witness.s0)) <> o_vals (obs Witness.s0).
+Proof. vm_compute. repeat split. discriminate. Qed.
+
+Example C05_nonvacuous_multi_interrupt :
+  forallb (@is_interrupt Witness.R Witness.C Witness.SS) [OpReload false; OpReload true; OpClone; OpClone; OpTo] = true /\
+  obs (Witness.run Witness.mask_unused 2
+         (Witness.run_ops Witness.mask_unused false [OpReload false; OpReload true; OpClone; OpClone; OpTo]
+            (Witness.run Witness.mask_unused 1 Witness.s0)))
+  = obs (Witness.run Witness.mask_unused 3 Witness.s0).
+Proof. vm_compute. split; reflexivity. Qed.
+
+(* the data-less checkpoint: a state whose model 1 (the "dataset") has no optimiser but non-trivial
+   values; the hypotheses of (d) hold, the resumed run equals the uninterrupted one, and the
+   reloaded object reports the values that were saved; with an optimiser on model 1 it does not *)
+Definition C05_meta_s0 : Witness.st :=
+  Witness.run_ops [] false [OpSetOpt 0 Adam 1%Z (Some 2%Z); OpSetCons 1 7%Z]
+                  (init_st [([10%Z; 20%Z], 5%Z); ([30%Z; 31%Z], 6%Z)]).
+Example C05_nonvacuous_meta_route :
+  binding_inv C05_meta_s0 /\
+  (exists md, nth_error (models (rc (Witness.run Witness.mask_all 1 C05_meta_s0))) 1 = Some md /\
+              mopt md = None /\ mcons md = 7%Z) /\
+  obs (Witness.run Witness.mask_all 2 (reload_meta false 1 7%Z true (Witness.run Witness.mask_all 1 C05_meta_s0)))
+  = obs (Witness.run Witness.mask_all 3 C05_meta_s0) /\
+  o_vals (obs (reload_meta false 1 7%Z false (Witness.run Witness.mask_all 1 C05_meta_s0)))
+  = [[Some 11%Z; Some 21%Z]; [Some 30%Z; Some 31%Z]] /\
+  obs (Witness.run Witness.mask_all 1 (reload_meta false 1 7%Z false (Witness.run Witness.mask_all 1 Witness.s0)))
+  <> obs (Witness.run Witness.mask_all 2 Witness.s0).
+Proof.
+  split; [apply binding_inv_reachable|]. split; [eexists; vm_compute; repeat split|].
+  vm_compute. repeat split. discriminate.
+Qed.
